@@ -648,6 +648,44 @@ pub fn gen_env_and_roots(s: &mut Src, cfg: &GenCfg, n_roots: usize) -> (Env, Vec
         let depth = s.range(0, cfg.max_depth);
         roots.push(g.ty(s, depth, false));
     }
+    // now and then: a union of intersections of NAMED object types that both declare the tag (a wide base
+    // {k: "a" | "b"; ...} and one narrow part per branch), under every order of the three names: the compiler has to
+    // flatten each branch and keep the narrower tag to see the discriminated union
+    if cfg.inter && cfg.max_defs >= 3 && !roots.is_empty() && s.chance(1, 12) {
+        let tag = s.pick(&["k", "a", "type"]).to_string();
+        let other = |i: usize| -> String { ["b", "c", "0"][i].to_string() };
+        let leaf = |s: &mut Src| match s.below(3) {
+            0 => D::Str,
+            1 => D::Num,
+            _ => D::Bool,
+        };
+        let base = D::Object {
+            props: vec![
+                Prop { key: tag.clone(), ty: D::Union(vec![D::StrLit("a".into()), D::StrLit("b".into())]), optional: false },
+                Prop { key: other(0), ty: leaf(s), optional: false },
+            ],
+            index: None,
+        };
+        let part = |lit: &str, key: String, ty: D| D::Object { props: vec![Prop { key: tag.clone(), ty: D::StrLit(lit.into()), optional: false }, Prop { key, ty, optional: false }], index: None };
+        let (p1, p2) = (part("a", other(1), leaf(s)), part("b", other(2), leaf(s)));
+        // which of the three names (they sort Alpha < Beta < Gamma) the base gets
+        let base_at = s.below(3);
+        let mut bodies = vec![p1, p2];
+        bodies.insert(base_at, base);
+        let part_at: Vec<usize> = (0..3).filter(|i| *i != base_at).collect();
+        env = Env::default();
+        for (i, b) in bodies.into_iter().enumerate() {
+            env.defs.push((DEF_NAMES[i].to_string(), b));
+        }
+        let branch = |s: &mut Src, p: usize| if s.chance(1, 2) { D::Inter(vec![D::Ref(base_at), D::Ref(p)]) } else { D::Inter(vec![D::Ref(p), D::Ref(base_at)]) };
+        let u = D::Union(vec![branch(s, part_at[0]), branch(s, part_at[1])]);
+        for r in roots.iter_mut() {
+            *r = D::Str;
+        }
+        let last = roots.len() - 1;
+        roots[last] = if s.chance(1, 2) { u } else { D::Array(Box::new(u)) };
+        return (env, roots);
+    }
     // now and then the same two named object types meet both in a union and in an intersection within one program
     // (shared sub-validators are hoisted by structure: A | B and A & B must not be confused)
     let objs = object_defs(&env);
